@@ -212,7 +212,7 @@ class Walker(object):
             self.const(e[1], reach, ctx)
         elif k in ('var', 'instance', 'global', 'unsupported', 'raise'):
             pass
-        elif k in ('readI', 'readV', 'neg', 'pos', 'not', 'attrFail'):
+        elif k in ('readI', 'readV', 'neg', 'pos', 'not', 'attrFail', 'loadedForm'):
             self.expr(e[1], reach, ctx)
         elif k == 'attr':
             self.expr(e[1], reach, ctx)
@@ -315,6 +315,8 @@ class Walker(object):
             return set()
         elif k in ('expr', 'assertS'):
             self.expr(s[1], reach)
+            if k == 'assertS' and len(s) > 2:
+                self.expr(s[2], reach, 'text')
             if k == 'expr' and s[1][0] == 'notImpl':
                 return set()
         elif k == 'append':
@@ -403,22 +405,27 @@ def same_number(a, b):
         return False
 
 
-def mentioned_amounts(node, out=None):
-    """(amount id, multiplier) pairs mentioned anywhere in a check of the map"""
+def mentioned_amounts(chk):
+    """(amount id, multiplier, offset) triples a check of the map mentions: its primary amount, and every
+    `{"amt": id, "times": k, "plus": d}` in its stores / expectations (shorthands `echo`, `gate`, `coef` expanded)
+    and in its `derived` list"""
     from fractions import Fraction
-    out = [] if out is None else out
-    if isinstance(node, dict):
-        if 'amt' in node:
-            out.append((node['amt'], Fraction(str(node.get('times', '1'))), Fraction(str(node.get('plus', '0')))))
-        if isinstance(node.get('amount'), str):
-            out.append((node['amount'], Fraction(1), Fraction(0)))
-        for k, v in node.items():
-            if k == 'times' and 'amt' not in node and isinstance(node.get('amount'), str):
-                out.append((node['amount'], Fraction(str(v)), Fraction(0)))
-            mentioned_amounts(v, out)
-    elif isinstance(node, list):
-        for v in node:
-            mentioned_amounts(v, out)
+    import gen_c08
+    out = [(chk['amount'], Fraction(1), Fraction(0))]
+
+    def walk(node):
+        if isinstance(node, dict):
+            if 'amt' in node:
+                out.append((node['amt'], Fraction(str(node.get('times', '1'))) / Fraction(str(node.get('div', '1'))),
+                            Fraction(str(node.get('plus', '0')))))
+            for v in node.values():
+                walk(v)
+        elif isinstance(node, list):
+            for v in node:
+                walk(v)
+
+    walk(gen_c08.expand_points(chk))
+    walk({k: chk.get(k) for k in ('inputs', 'values', 'derived')})
     return out
 
 
@@ -513,11 +520,25 @@ def classify(sites, cmap, stat=None, failed_sites=()):
     return sites
 
 
+def known_failed_sites():
+    """sites of the obligations the last generator run found false (Gen/c08_failed.json), per year"""
+    path = os.path.join(os.path.dirname(HERE), 'lean', 'HabuVerif', 'Gen', 'c08_failed.json')
+    out = {}
+    try:
+        with open(path, encoding='utf-8') as fh:
+            for f in json.load(fh):
+                out.setdefault(int(f['year']), set()).add(f['site'])
+    except (OSError, ValueError, KeyError):
+        pass
+    return out
+
+
 def survey(years=YEARS, cmap=None):
     cmap = cmap if cmap is not None else (load_map() if os.path.exists(MAP_PATH) else {})
+    failed = known_failed_sites()
     out = {}
     for y in years:
-        out[str(y)] = classify(find_sites(y), cmap)
+        out[str(y)] = classify(find_sites(y), cmap, failed_sites=failed.get(y, ()))
     return out
 
 
